@@ -526,6 +526,24 @@ func c15Run(t *testing.T, wl any, sc SchedCfg) *Result {
 			if api.EventMask(end2.Events) != want2 {
 				res.Violate("C15.mask", "plugin implements %s; first session configured %s %#x; after a restart with %s %#x the subscribed mask is %#x, want %#x", handlerNames(w.Mask), w.CfgKind, uint32(requested), w.CfgKind2, uint32(requested2), end2.Events, uint32(want2))
 			}
+			// the second session's synchronization carries that session's state, nothing of the first
+			if rec.Syncs != 2 {
+				res.Violate("C15.dispatch", "after the restart the Synchronize handler has been called %d times in total, want 2 (one per session)", rec.Syncs)
+			} else {
+				ids := func(ps []*api.PodSandbox, cs []*api.Container) string {
+					var x []string
+					for _, p := range ps {
+						x = append(x, p.GetId())
+					}
+					for _, c := range cs {
+						x = append(x, c.GetId())
+					}
+					return strings.Join(x, " ")
+				}
+				if got, want := ids(rec.SyncPods, rec.SyncCtrs), ids(end2.Pods, end2.Ctrs); got != want {
+					res.Violate("C15.payload", "after the restart the Synchronize handler received [%s], the runtime sent [%s] in that session (in %d message(s); the first session's state went in %d message(s))", got, want, end2.ChunksSent, end.ChunksSent)
+				}
+			}
 			// one message per implemented handler must still reach it
 			before := len(rec.Snapshot())
 			nsent := 0
